@@ -44,6 +44,9 @@ type Spec struct {
 	At        int               `json:"at,omitempty"`
 	NUpd      int               `json:"nupd"`
 	Signature map[string]string `json:"signature,omitempty"`
+	// Resync, when set, makes this a case of the resync stream (resync.go): one stub
+	// value registering several times; the fields above are then unused.
+	Resync *ResyncSpec `json:"resync,omitempty"`
 }
 
 func (s *Spec) expand() {
@@ -120,9 +123,14 @@ func parseID(prefix byte, s string) int {
 }
 
 func buildState(sp *Spec) ([]*api.PodSandbox, []*api.Container) {
-	pods := make([]*api.PodSandbox, len(sp.Pods))
-	for i, pad := range sp.Pods {
-		p := &api.PodSandbox{Id: podID(i), Name: "pod", Uid: "u", Namespace: "ns"}
+	return buildStateAt(0, sp.Pods, sp.Ctrs)
+}
+
+// buildStateAt builds a state whose pods and containers carry the ids base, base+1, ...
+func buildStateAt(base int, podPads, ctrPads []int) ([]*api.PodSandbox, []*api.Container) {
+	pods := make([]*api.PodSandbox, len(podPads))
+	for i, pad := range podPads {
+		p := &api.PodSandbox{Id: podID(base + i), Name: "pod", Uid: "u", Namespace: "ns"}
 		if pad > 0 {
 			if i%2 == 0 {
 				p.Annotations = map[string]string{"pad": bigPad[:pad]}
@@ -132,9 +140,9 @@ func buildState(sp *Spec) ([]*api.PodSandbox, []*api.Container) {
 		}
 		pods[i] = p
 	}
-	ctrs := make([]*api.Container, len(sp.Ctrs))
-	for i, pad := range sp.Ctrs {
-		c := &api.Container{Id: ctrID(i), PodSandboxId: podID(0), Name: "ctr", State: api.ContainerState_CONTAINER_RUNNING}
+	ctrs := make([]*api.Container, len(ctrPads))
+	for i, pad := range ctrPads {
+		c := &api.Container{Id: ctrID(base + i), PodSandboxId: podID(0), Name: "ctr", State: api.ContainerState_CONTAINER_RUNNING}
 		if pad > 0 {
 			switch i % 3 {
 			case 0:
@@ -502,10 +510,22 @@ func workerMain() {
 		}
 		var sp Spec
 		var reply struct {
-			Obs   *Obs   `json:"obs,omitempty"`
-			Error string `json:"error,omitempty"`
+			Obs   *Obs       `json:"obs,omitempty"`
+			RObs  *ResyncObs `json:"robs,omitempty"`
+			Error string     `json:"error,omitempty"`
 		}
-		if e := json.Unmarshal(line, &sp); e != nil {
+		var probe struct {
+			Resync *ResyncSpec `json:"resync"`
+		}
+		if e := json.Unmarshal(line, &probe); e == nil && probe.Resync != nil {
+			probe.Resync.expand()
+			o, e := runResync(dir, k, probe.Resync)
+			if e != nil {
+				reply.Error = e.Error()
+			} else {
+				reply.RObs = o
+			}
+		} else if e := json.Unmarshal(line, &sp); e != nil {
 			reply.Error = "bad spec: " + e.Error()
 		} else {
 			sp.expand()
